@@ -386,6 +386,12 @@ impl<T: Qcow2IoOps> Qcow2Dev<T> {
                 drop(l2_table);
 
                 if compressed {
+                    // The old mapping has to be gone from the disk before
+                    // the refcounts of the compressed clusters may drop:
+                    // the l2 write above isn't ordered against a later
+                    // refcount flush without a barrier.
+                    self.call_fsync(0, usize::MAX, 0).await?;
+
                     // free clusters in original compressed mapping
                     // finally, this update needn't be flushed immediately,
                     // and can be update in ram
